@@ -81,7 +81,12 @@ def _judge(case, b):
         if not R['incomplete'] and md.get(FW[3]) is not R['exc_flag']:
             viols.append(viol('exception-flag:expected-%s:got-%s' % (R['exc_flag'], md.get(FW[3])), 'exception flag of a run that was not cut short', R['exc_flag'], md.get(FW[3])))
         user = {k: v for k, v in md.items() if k not in FW}
-        if P.canon(user) != P.canon(R['user_meta']):
+        if b.prog.get('ext') == 'nonstr':
+            # a mapping with a non-string key: the serializer turns the key into text; all of the extractor's entries or none of them
+            keys = sorted(map(str, user))
+            if keys not in ([], sorted(map(str, R['user_meta']))):
+                viols.append(viol('user-metadata:partial-mapping', 'user metadata must be all of the extractor\'s entries or none of them', sorted(R['user_meta']), keys))
+        elif P.canon(user) != P.canon(R['user_meta']):
             viols.append(viol('user-metadata:%s' % (b.prog.get('ext')), 'user metadata must be the extractor\'s dict, or none of it if the extractor fails (extractor kind %s)' % b.prog.get('ext'),
                               R['user_meta'], user))
         # default lookup returns exactly the complete recordings
@@ -89,7 +94,7 @@ def _judge(case, b):
         env2 = P.Env(inner=fresh, enabled=False)
         try:
             ids = sorted(find_matching_recording_ids(env2.tr, b.env.cls.__name__, RecordingLookupProperties(start_date=None)))
-            exp_ids = [] if R['incomplete'] else [r1.rec_id]
+            exp_ids = sorted(b.prior_ids + ([] if R['incomplete'] else [r1.rec_id]))
             if ids != exp_ids:
                 viols.append(viol('default-lookup', 'the default (skip incomplete) lookup must return exactly the complete recordings', exp_ids, ids))
         except Exception as e:
